@@ -413,7 +413,7 @@ Definition wf_map (rows : list row) : Prop := StronglySorted key_le rows /\ dist
 
 Lemma interp_off_map rows c x : has_chr rows c = false -> interp_pos rows (c, x) = NaN.
 Proof. intros H. unfold interp_pos. now rewrite H. Qed.
-Lemma interp_on_map rows c x : has_chr rows c = true -> interp_pos rows (c, x) = Fin (interp1 (knots rows c) x).
+Lemma interp_on_map rows c x : has_chr rows c = true -> interp_pos rows (c, x) = Fin (interp1 (spline_knots rows c) x).
 Proof. intros H. unfold interp_pos. now rewrite H. Qed.
 
 Lemma has_chr_in rows r : In r rows -> has_chr rows (r_chr r) = true.
@@ -431,13 +431,115 @@ Proof.
   destruct Ha as [?|[? [?|[? _]]]]; lia.
 Qed.
 
+(** interp1d's internal sort: the identity on knots that are already increasing ... *)
+Lemma insert_knot_head p l : Forall (fun q => fst p < fst q) l -> insert_knot p l = p :: l.
+Proof. intros H. destruct l as [|q t]; [reflexivity|]. cbn [insert_knot]. apply Forall_inv in H. destruct (Z.leb_spec (fst p) (fst q)); [reflexivity|lia]. Qed.
+
+Lemma sort_knots_id l : incr (map fst l) -> sort_knots l = l.
+Proof.
+  unfold incr. induction l as [|p t IH]; cbn [map]; intros S; [reflexivity|]. apply StronglySorted_inv in S as [St Fa].
+  cbn [sort_knots fold_right]. fold (sort_knots t). rewrite IH by exact St. apply insert_knot_head.
+  rewrite Forall_forall in *. intros q Hq. apply Fa. now apply in_map.
+Qed.
+
+Lemma spline_knots_sorted rows c : StronglySorted key_le rows -> distinct_pos rows -> spline_knots rows c = knots rows c.
+Proof. intros S ND. apply sort_knots_id. now apply knots_incr. Qed.
+
+Lemma interp_on_wf_map rows c x : StronglySorted key_le rows -> distinct_pos rows -> has_chr rows c = true ->
+  interp_pos rows (c, x) = Fin (interp1 (knots rows c) x).
+Proof. intros S ND H. rewrite interp_on_map by exact H. now rewrite spline_knots_sorted. Qed.
+
+(** ... and in general it makes the spline independent of the array order (auto_group = False) *)
+Lemma insert_knot_perm p l : Permutation (insert_knot p l) (p :: l).
+Proof. induction l as [|q t IH]; cbn [insert_knot]; [reflexivity|]. destruct (fst p <=? fst q); [reflexivity|]. rewrite IH. apply perm_swap. Qed.
+Lemma sort_knots_perm l : Permutation (sort_knots l) l.
+Proof. induction l as [|p t IH]; cbn; [reflexivity|]. fold (sort_knots t). rewrite insert_knot_perm. now constructor. Qed.
+
+Definition knot_le (p q : Z * Q) : Prop := fst p <= fst q.
+Lemma insert_knot_sorted p l : Sorted knot_le l -> Sorted knot_le (insert_knot p l).
+Proof.
+  induction 1 as [|q t Hs IH Hhd]; cbn [insert_knot]; [repeat constructor|].
+  destruct (Z.leb_spec (fst p) (fst q)) as [L|G].
+  - constructor; [now constructor | constructor; exact L].
+  - constructor; [exact IH|]. destruct t as [|z t']; cbn [insert_knot]; [constructor; unfold knot_le; lia|].
+    destruct (fst p <=? fst z); constructor; [unfold knot_le; lia | now inversion Hhd].
+Qed.
+Lemma sort_knots_sorted l : Sorted knot_le (sort_knots l).
+Proof. induction l as [|p t IH]; cbn; [constructor|]. now apply insert_knot_sorted. Qed.
+
+Lemma Permutation_filter' {A} (f : A -> bool) l l' : Permutation l l' -> Permutation (filter f l) (filter f l').
+Proof.
+  induction 1 as [|x l l' _ IH|x y l|l l' l'' _ IH1 _ IH2]; cbn [filter]; [constructor| | |now transitivity (filter f l')].
+  - destruct (f x); [now constructor | exact IH].
+  - destruct (f x), (f y); try reflexivity. apply perm_swap.
+Qed.
+
+(** sorted lists of knots with pairwise distinct abscissae are unique among their permutations *)
+Lemma sorted_knots_unique (l1 : list (Z * Q)) : forall l2, StronglySorted knot_le l1 -> StronglySorted knot_le l2 ->
+  Permutation l1 l2 -> NoDup (map fst l1) -> l1 = l2.
+Proof.
+  induction l1 as [|h1 t1 IH]; intros l2 S1 S2 P ND.
+  - apply Permutation_nil in P. now subst.
+  - destruct l2 as [|h2 t2]; [symmetry in P; apply Permutation_nil in P; discriminate|].
+    apply StronglySorted_inv in S1 as [S1 F1]. apply StronglySorted_inv in S2 as [S2 F2]. rewrite Forall_forall in F1, F2.
+    cbn [map] in ND. inversion ND as [|? ? Hn ND']; subst.
+    assert (E : h1 = h2).
+    { assert (I2 : In h2 (h1 :: t1)) by (apply Permutation_in with (h2 :: t2); [now symmetry | now left]).
+      assert (I1 : In h1 (h2 :: t2)) by (apply Permutation_in with (h1 :: t1); [exact P | now left]).
+      destruct I2 as [->|I2]; [reflexivity|]. destruct I1 as [->|I1]; [reflexivity|].
+      exfalso. apply Hn. specialize (F1 h2 I2). specialize (F2 h1 I1). unfold knot_le in *.
+      replace (fst h1) with (fst h2) by lia. now apply in_map. }
+    subst h2. f_equal. apply IH; [exact S1 | exact S2 | now apply Permutation_cons_inv with h1 | exact ND'].
+Qed.
+
+Lemma knot_le_trans : forall a b c, knot_le a b -> knot_le b c -> knot_le a c.
+Proof. unfold knot_le. intros; lia. Qed.
+
+Lemma incr_knot_sorted l : incr (map fst l) -> StronglySorted knot_le l /\ NoDup (map fst l).
+Proof.
+  unfold incr. induction l as [|p t IH]; cbn [map]; intros S; [split; constructor|]. apply StronglySorted_inv in S as [St Fa].
+  destruct (IH St) as [I1 I2]. rewrite Forall_forall in Fa. split; constructor; try assumption.
+  - rewrite Forall_forall. intros q Hq. unfold knot_le. specialize (Fa (fst q) (in_map fst _ _ Hq)). lia.
+  - intros Hin. specialize (Fa _ Hin). lia.
+Qed.
+
+Lemma spline_knots_order_independent input c : distinct_pos input -> spline_knots input c = knots (gm_rows input) c.
+Proof.
+  intros ND. assert (W : StronglySorted key_le (gm_rows input) /\ distinct_pos (gm_rows input)).
+  { split; [apply sort_rows_strongly|]. unfold distinct_pos, gm_rows. apply (Permutation_NoDup (l := map pos input)); [|exact ND].
+    apply Permutation_map. symmetry. apply sort_rows_perm. }
+  destruct W as [S ND']. destruct (incr_knot_sorted _ (knots_incr (gm_rows input) c S ND')) as [K1 K2].
+  symmetry. apply sorted_knots_unique; [exact K1 | apply Sorted_StronglySorted; [exact knot_le_trans | apply sort_knots_sorted] | | exact K2].
+  unfold spline_knots. rewrite sort_knots_perm. unfold knots. apply Permutation_map, Permutation_filter'. apply sort_rows_perm.
+Qed.
+
+Lemma has_chr_perm l l' c : Permutation l l' -> has_chr l c = has_chr l' c.
+Proof.
+  intros P. unfold has_chr. destruct (existsb _ l) eqn:E1, (existsb _ l') eqn:E2; try reflexivity.
+  - apply existsb_exists in E1 as (r & Hr & Hc). assert (existsb (fun r => r_chr r =? c) l' = true); [|congruence].
+    apply existsb_exists. exists r. split; [now apply Permutation_in with l | exact Hc].
+  - apply existsb_exists in E2 as (r & Hr & Hc). assert (existsb (fun r => r_chr r =? c) l = true); [|congruence].
+    apply existsb_exists. exists r. split; [apply Permutation_in with l'; [now symmetry | exact Hr] | exact Hc].
+Qed.
+
+(** interpolation from a map built with auto_group = False (arrays left in the supplied order) equals interpolation from
+    the sorted map *)
+Lemma interp_auto_group_independent input cx : distinct_pos input -> interp_pos input cx = interp_pos (gm_rows input) cx.
+Proof.
+  intros ND. destruct cx as [c x]. unfold interp_pos.
+  rewrite (has_chr_perm input (gm_rows input) c) by (symmetry; apply sort_rows_perm).
+  destruct (has_chr (gm_rows input) c); [|reflexivity].
+  rewrite (spline_knots_order_independent input c ND). rewrite spline_knots_sorted; [reflexivity | apply sort_rows_strongly |].
+  unfold distinct_pos, gm_rows. apply (Permutation_NoDup (l := map pos input)); [|exact ND]. apply Permutation_map. symmetry. apply sort_rows_perm.
+Qed.
+
 Lemma knots_in rows r : In r rows -> In (r_phy r, r_gen r) (knots rows (r_chr r)).
 Proof. intros H. unfold knots. apply in_map_iff. exists r. split; [reflexivity|]. apply filter_In. split; [exact H | apply Z.eqb_refl]. Qed.
 
 (** interpolating a map at one of its own markers returns the stored genetic position *)
 Lemma interp_own_marker rows r : wf_map rows -> In r rows -> ext_equiv (interp_pos rows (r_chr r, r_phy r)) (Fin (r_gen r)).
 Proof.
-  intros (S & ND & TM) Hr. rewrite interp_on_map by now apply has_chr_in.
+  intros (S & ND & TM) Hr. rewrite interp_on_wf_map by (assumption || now apply has_chr_in).
   destruct (In_nth _ _ (0%Z, 0%Q) (knots_in rows r Hr)) as (i & Hi & Ei).
   pose proof (interp1_at_knot (knots rows (r_chr r)) (TM _ (has_chr_in rows r Hr)) (knots_incr rows (r_chr r) S ND) i Hi) as K.
   rewrite Ei in K. cbn [fst snd] in K. unfold ext_equiv. cbn [ext_eqb]. now apply Qeq_bool_iff.
@@ -501,7 +603,7 @@ Qed.
 Lemma interp_order_preserving rows c x x' : wf_map rows -> is_congruent rows = true -> has_chr rows c = true -> x <= x' ->
   exists g g', interp_pos rows (c, x) = Fin g /\ interp_pos rows (c, x') = Fin g' /\ (g <= g')%Q.
 Proof.
-  intros (S & ND & TM) C H Hx. rewrite !interp_on_map by exact H. do 2 eexists. split; [reflexivity|]. split; [reflexivity|].
+  intros (S & ND & TM) C H Hx. rewrite !interp_on_wf_map by assumption. do 2 eexists. split; [reflexivity|]. split; [reflexivity|].
   apply interp1_monotone; [now apply TM | now apply knots_incr | now apply congruent_knots_mono | exact Hx].
 Qed.
 
@@ -511,7 +613,7 @@ Lemma interp_linear_between rows c i x : wf_map rows -> has_chr rows c = true ->
   exists g, interp_pos rows (c, x) = Fin g /\
     (g == chord x (fst (nth i k (0%Z, 0%Q))) (snd (nth i k (0%Z, 0%Q))) (fst (nth (S i) k (0%Z, 0%Q))) (snd (nth (S i) k (0%Z, 0%Q))))%Q.
 Proof.
-  intros (S & ND & TM) H k Hi Hx. rewrite interp_on_map by exact H. eexists. split; [reflexivity|].
+  intros (S & ND & TM) H k Hi Hx. rewrite interp_on_wf_map by assumption. eexists. split; [reflexivity|].
   apply interp1_between; [now apply TM | now apply knots_incr | exact Hi | exact Hx].
 Qed.
 
